@@ -41,6 +41,7 @@ type RunCfg struct {
 	MaxPaths   int                `json:"maxpaths"`
 	MaxSteps   int                `json:"maxsteps"`
 	MaxLoop    int                `json:"maxloop"`
+	Probes     []string           `json:"probes"`   // functions whose first parameter's pointee is recorded on return
 	TraceAll   bool               `json:"traceall"` // trace every call into the module's internal packages
 	TracePfx   []string           `json:"tracepfx"`
 }
